@@ -280,6 +280,36 @@ def chain_rule(ctx, tbl, skip_reform=False):
     ctx.ok('TILE-CHAIN', 9999 - len(bad), {'years_checked': 9999, 'reform_years_with_span_bound_only': skipped, 'reform_literals': sorted(reform), 'offset_histogram': dict((str(k), list(offs.values()).count(k)) for k in set(offs.values())), 'site': fn_site(p, 'LunarMonth::new')})
 
 
+def year_listing_rule(ctx):
+    """A lunar year lists its 12 or 13 months in order, for every leap position 1..12 (and none), and its day count is the distance between new-year days.
+
+    Real LunarYear::get_months / get_month_count / get_day_count evaluated on scenario calendars (month records = scenario input)."""
+    from calmodel import CalModel, synthetic_months
+    import calendar_oracle as CAL
+    p = ctx.prog
+    I2 = ctx.interp(fuel=50000000)
+    t2 = T(I2)
+    Y = 2000
+    ctx.rule('PETE-SCENARIO', 'container / stepping code evaluated on scenario calendars (month records are scenario inputs)')
+
+    def listing(L):
+        months = synthetic_months(Y, CAL.jdn(Y, 2, 5), 2, leap=({Y: L} if L else {Y + 1: 6}), prev_months=3, auto_leap=False)
+        CalModel(I2, {}, months)
+        ly = I2.call('LunarYear::from_year', [Y])
+        ms = t2.m(ly, 'get_months')
+        first = [int(m.f['first_julian_day'].f['day']) for m in ms]
+        return ([py(t2.m(m, 'get_month_with_leap')) for m in ms], py(t2.m(ly, 'get_month_count')), py(t2.m(ly, 'get_day_count')), first == sorted(first))
+
+    def listing_orc(L):
+        months = synthetic_months(Y, CAL.jdn(Y, 2, 5), 2, leap=({Y: L} if L else {Y + 1: 6}), prev_months=3, auto_leap=False)
+        recs = [r for r in months if r['year'] == Y]
+        nxt = [r for r in months if r['year'] == Y + 1][0]
+        return ([r['month'] for r in recs], len(recs), nxt['first'] - recs[0]['first'], True)
+    table(ctx, 'PETE-SCENARIO', 'LunarYear::get_months:leap-positions', list(range(0, 13)), listing, listing_orc,
+          'a lunar year lists exactly its 12 months, or 13 with the leap month directly after its twin, for every leap position 1..12; month count and day count (= distance between new-year days) agree',
+          lambda L: 'leap month %d' % L if L else 'no leap month', fn_site(p, 'LunarYear::get_months'))
+
+
 def run(ctx, pid='C03'):
     ctx.exhaustive = False
     ctx.exhaustive_note = 'table rules are complete over the stored table; the stubbed-constructor rules use one sample year per leap-month position'
@@ -296,6 +326,7 @@ def run(ctx, pid='C03'):
         tbl = None
     if tbl is not None:
         chain_rule(ctx, tbl, skip_reform=(pid == 'C04'))
+    year_listing_rule(ctx)
     if pid == 'C03':
         fit_rule(ctx)
     if pid == 'C04':
